@@ -273,29 +273,29 @@ Proof. exact C04_dec.decoder_closed. Qed.
 Theorem C04_decoder_scratch_local : C04_dec.scratch_local Decoder.decoder_prog = true.
 Proof. exact C04_dec.decoder_scratch_local. Qed.
 
-(* on EVERY text of at most 6 symbols over braces, brackets, colon, comma, semicolon, both quotes, backslash, 1, a, B and
-   space (alpha1), and of at most 5 symbols over brackets, comma, semicolon, minus, 1, 2, b, s, L, B, I and space (alpha2): whenever the specification parser reads the text as the tree t, the interpretation of the translated decoder
+(* on EVERY text of at most 5 symbols over braces, brackets, colon, comma, semicolon, both quotes, backslash, 1, a, B and
+   space (alpha1), and of at most 4 symbols over brackets, comma, semicolon, minus, 1, 2, b, s, L, B, I and space (alpha2): whenever the specification parser reads the text as the tree t, the interpretation of the translated decoder
    writes exactly enc t *)
 Theorem C04_decoder_translated_short : forall (text : list Z) (t : tag),
-  ((length text <= 6)%nat /\ Forall (fun c => In c Proofs.C04_dec.alpha1) text) \/
-  ((length text <= 5)%nat /\ Forall (fun c => In c Proofs.C04_dec.alpha2) text) ->
+  ((length text <= 5)%nat /\ Forall (fun c => In c Proofs.C04_dec.alpha1) text) \/
+  ((length text <= 4)%nat /\ Forall (fun c => In c Proofs.C04_dec.alpha2) text) ->
   parse C04_dec_sweep.nopfs C04_dec_sweep.nopfs (map Z.to_N text) = Some t ->
   C04_dec.decode_text Proofs.C04_dec.nopf Decoder.decoder_prog text = C04_dec.DOk (map Z.of_N (enc t)).
 Proof. exact C04_dec_sweep.decoder_agrees_short. Qed.
 
-(* float literals: the same on EVERY text of at most 6 symbols over 1 . - + f D d brackets comma and space (alpha3), under
+(* float literals: the same on EVERY text of at most 5 symbols over 1 . - + f D d brackets comma and space (alpha3), under
    float oracles that are consistent with each other (spf reads (sign, integer digits, fraction digits), zpf the token
    without its suffix letter: the same decimal text) *)
 Theorem C04_decoder_translated_short_floats : forall (text : list Z) (t : tag),
-  (length text <= 6)%nat -> Forall (fun c => In c Proofs.C04_dec.alpha3) text ->
+  (length text <= 5)%nat -> Forall (fun c => In c Proofs.C04_dec.alpha3) text ->
   parse C04_dec_sweep2.spf C04_dec_sweep2.spf (map Z.to_N text) = Some t ->
   Model.C04_dec.decode_text C04_dec_sweep2.zpf Decoder.decoder_prog text = Model.C04_dec.DOk (map Z.of_N (enc t)).
 Proof. exact C04_dec_sweep2.decoder_agrees_short_floats. Qed.
 
-(* totality on EVERY text of at most 5 symbols over alpha1, and over alpha3: the interpretation ends in a payload or an
+(* totality on EVERY text of at most 4 symbols over alpha1, and over alpha3: the interpretation ends in a payload or an
    error - no panic (phasePanicMsg, index or slice out of range, failed type assertion), no statement without a
    meaning, no exhausted fuel *)
-Theorem C04_decoder_total_short : forall text : list Z, (length text <= 5)%nat ->
+Theorem C04_decoder_total_short : forall text : list Z, (length text <= 4)%nat ->
   (Forall (fun c => In c Proofs.C04_dec.alpha1) text ->
    (exists o, Model.C04_dec.decode_text Proofs.C04_dec.nopf Decoder.decoder_prog text = Model.C04_dec.DOk o) \/
    Model.C04_dec.decode_text Proofs.C04_dec.nopf Decoder.decoder_prog text = Model.C04_dec.DErr) /\
